@@ -348,7 +348,7 @@ theorem cycleM_tick {app : App} {s s' : State} {ev : Event} (h : cycleM app s = 
           exact ⟨t.len.trans (f2.len.trans f1.1), by rw [t.exe, f2.exe]; exact f1.2.1, by rw [t.exe, f2.exe]; exact f1.2.2.1,
                  by have := t.cyc; have := f2.cyc; have := f1.2.2.2; omega⟩
   · -- retB
-    simp only [bind, Except.bind, pure, Except.pure] at h
+    simp only [bind, Except.bind] at h
     split at h
     · cases h
     · rename_i s1 h1
